@@ -407,3 +407,29 @@ Proof.
       apply Rmult_lt_0_compat; [nra|lra]. }
     vec_eq; field; repeat split; lra.
 Qed.
+
+(* ---- equality of real expressions modulo square-root facts (traced-kernel ties) ---------------------------------------
+   Every `sqrt x` of the goal becomes a variable n with n^2 = x (x a sum of squares), 0 < x when n <> 0 is known; then the
+   equation is cleared of denominators and the even powers of n are replaced by x. This proves `model = traced` when one
+   side goes through unit vectors (two divisions by a norm) and the other divides once by the squared length. *)
+Ltac abstract_sqrts :=
+  repeat match goal with
+  | |- context [sqrt ?x] =>
+      let n := fresh "sq" in let Hq := fresh "Hsq" in
+      assert (Hq : sqrt x * sqrt x = x) by (apply sqrt_sqrt; nra);
+      set (n := sqrt x) in *; clearbody n;
+      try (match goal with Hz : n <> 0 |- _ =>
+             let Hp := fresh "Hpos" in pose proof (Rsqr_pos_lt n Hz) as Hp; unfold Rsqr in Hp; rewrite Hq in Hp end);
+      let E2 := fresh "Esq" in let E3 := fresh "Esq" in let E4 := fresh "Esq" in
+      assert (E2 : n ^ 2 = x) by (rewrite <- Hq; ring);
+      assert (E3 : n ^ 3 = n * x) by (rewrite <- Hq; ring);
+      assert (E4 : n ^ 4 = x * x) by (rewrite <- Hq; ring)
+  end.
+Ltac nonzero_side := repeat split; first [ assumption | lra | nra ].
+Ltac subst_sqrt_powers :=
+  repeat match goal with E : ?n ^ 4 = _ |- _ => rewrite ?E; clear E end;
+  repeat match goal with E : ?n ^ 3 = _ |- _ => rewrite ?E; clear E end;
+  repeat match goal with E : ?n ^ 2 = _ |- _ => rewrite ?E; clear E end.
+Ltac sqrt_field :=
+  abstract_sqrts;
+  first [ ring | field; nonzero_side | field_simplify_eq; [ subst_sqrt_powers; ring | nonzero_side ] ].
